@@ -301,9 +301,10 @@ STATES = {
         ('PUT', '/resource_providers/%s/inventories' % RP[3], {'resource_provider_generation': 0, 'inventories': {
             'MEMORY_MB': _inv(1024)}}, '1.39'),
         ('PUT', '/resource_providers/%s/inventories' % RP[4], {'resource_provider_generation': 0, 'inventories': {'VCPU': _inv(4)}}, '1.39'),
-        ('PUT', '/resource_providers/%s' % RP[0], {'name': 'm-root', 'parent_provider_uuid': RP[3]}, '1.14'),
         ('PUT', '/resource_providers/%s' % RP[4], {'name': 'm-third', 'parent_provider_uuid': RP[2]}, '1.20'),
-        ('PUT', '/resource_providers/%s' % RP[1], {'name': 'm-child', 'parent_provider_uuid': RP[3]}, '1.37'),
+        ('PUT', '/resource_providers/%s' % RP[2], {'name': 'm-grand', 'parent_provider_uuid': RP[0]}, '1.37'),
+        # LAST (nothing after it may repair what it leaves): a root with three descendants gets its first parent below 1.37
+        ('PUT', '/resource_providers/%s' % RP[0], {'name': 'm-root', 'parent_provider_uuid': RP[3]}, '1.14'),
         ('PUT', '/allocations/%s' % CONS[0], _alloc38(None, {RP[0]: {'VCPU': 2}, RP[2]: {'DISK_GB': 10}, RP[4]: {'VCPU': 1}}), '1.39'),
     ],
     # everything allocated to the brim
